@@ -28,6 +28,7 @@ type ccase struct {
 	class   string
 	data    []byte
 	mustErr bool
+	small   bool // derived from the minimal file: also replayed on the Coq model of the decoder
 }
 
 // ---- child: decode each line of the file, report one line per case
@@ -138,22 +139,36 @@ func runCases(cases []ccase, perCase time.Duration) []outcome {
 	}
 	bw.Flush()
 	tmp.Close()
+	// cases are grouped by class; after 3 crashes / hangs in one class the rest
+	// of that class is skipped (each costs a process and up to perCase of time)
 	start := 0
 	for start < len(cases) {
-		next, fail := runChild(tmp.Name(), start, len(cases), perCase, out)
-		if next < len(cases) {
-			// the child died or hung in case `next`: confirm in a fresh process,
-			// alone (an earlier case may have left the address space fragmented)
-			n2, fail2 := runChild(tmp.Name(), next, next+1, perCase, out)
-			if n2 == next {
-				if fail2 == "" {
-					fail2 = fail
-				}
-				out[next] = outcome{fail2}
-			}
-			next++
+		end := start
+		for end < len(cases) && classKey(cases[end].class) == classKey(cases[start].class) {
+			end++
 		}
-		start = next
+		fails := 0
+		for start < end {
+			next, fail := runChild(tmp.Name(), start, end, perCase, out)
+			if next < end {
+				// the child died or hung in case `next`: confirm in a fresh process, alone
+				n2, fail2 := runChild(tmp.Name(), next, next+1, perCase, out)
+				if n2 == next {
+					if fail2 == "" {
+						fail2 = fail
+					}
+					out[next] = outcome{fail2}
+					fails++
+				}
+				next++
+			}
+			start = next
+			if fails >= 3 {
+				for ; start < end; start++ {
+					out[start] = outcome{"skipped"}
+				}
+			}
+		}
 	}
 	return out
 }
@@ -271,7 +286,7 @@ func replaceVarint(p []byte, span [2]int, v int64) []byte {
 	return append(out, p[span[1]:]...)
 }
 
-var hugeValues = []int64{1 << 40, 1 << 62, 1<<63 - 1, -1, -(1 << 63), 1 << 31, 1 << 33, 1 << 48, 1 << 20, 1 << 56, 100000}
+var hugeValues = []int64{1 << 40, 1 << 62, 1<<63 - 1, -1, -(1 << 63), 1 << 31, 1 << 20, 1 << 48}
 
 func baseFiles(r *hx.Rand) (files [][]byte, names []string) {
 	add := func(name string, p *starlark.Program) {
@@ -298,12 +313,14 @@ func baseFiles(r *hx.Rand) (files [][]byte, names []string) {
 
 func buildCorrupt(r *hx.Rand, n int) []ccase {
 	var cs []ccase
+	minimal := false
 	add := func(class string, data []byte, mustErr bool) {
-		cs = append(cs, ccase{class, data, mustErr})
+		cs = append(cs, ccase{class, data, mustErr, minimal && len(data) <= 80})
 	}
 	files, names := baseFiles(r)
 	for fi, file := range files {
 		nm := names[fi]
+		minimal = nm == "minimal"
 		p, s := splitFile(file)
 		// every strict prefix (sampled above 600 bytes)
 		step := 1
@@ -360,6 +377,7 @@ func buildCorrupt(r *hx.Rand, n int) []ccase {
 			}
 		}
 	}
+	minimal = true
 	// tiny inputs
 	for k := 0; k <= 9; k++ {
 		b := append([]byte(starlark.VerifSerialMagic), 8, 0, 0, 0, 28)
@@ -371,7 +389,12 @@ func buildCorrupt(r *hx.Rand, n int) []ccase {
 	add("tiny", []byte("!sky\x09\x00\x00\x00\x1c"), false)
 	// random flips
 	for i := 0; i < n; i++ {
-		file := files[r.Intn(len(files))]
+		fi := r.Intn(len(files))
+		if i%4 == 0 {
+			fi = 0
+		}
+		file := files[fi]
+		minimal = names[fi] == "minimal"
 		m := append([]byte{}, file...)
 		for j := 0; j <= r.Intn(3); j++ {
 			pos := r.Intn(len(m))
@@ -396,6 +419,15 @@ type corruptSummary struct {
 	Outcomes map[string]int `json:"outcomes"`
 }
 
+// corruptCase: a small corrupted file and what DecodeProgram did with it, for
+// the Coq model of the decoder to reproduce.
+type corruptCase struct {
+	Kind  string `json:"kind"` // "corrupt-case"
+	Class string `json:"class"`
+	Hex   string `json:"hex"`
+	OK    bool   `json:"ok"` // decoded without error
+}
+
 type corruptFail struct {
 	Kind  string `json:"kind"` // "corrupt-fail"
 	Key   string `json:"key"`
@@ -418,7 +450,8 @@ func classKey(class string) string {
 func modeCorrupt(seed uint64, n int) {
 	r := hx.NewRand(seed ^ 0xbad)
 	cs := buildCorrupt(r, n)
-	res := runCases(cs, 20*time.Second)
+	sort.SliceStable(cs, func(i, j int) bool { return classKey(cs[i].class) < classKey(cs[j].class) })
+	res := runCases(cs, 10*time.Second)
 	sum := corruptSummary{Kind: "corrupt", Cases: len(cs), ByClass: map[string]int{}, Outcomes: map[string]int{}}
 	seen := map[string]bool{}
 	for i, c := range cs {
@@ -430,13 +463,16 @@ func modeCorrupt(seed uint64, n int) {
 			word = o[:sp]
 		}
 		sum.Outcomes[ck+":"+strings.TrimSpace(strings.SplitN(o+" ", " ", 3)[0]+" "+firstWord(o))]++
+		if c.small && (word == "ok" || word == "err") {
+			hx.Emit(corruptCase{Kind: "corrupt-case", Class: ck, Hex: hex.EncodeToString(c.data), OK: word == "ok"})
+		}
 		var key, what string
 		switch word {
 		case "ok":
 			if c.mustErr {
 				key, what = "decode:accepted:"+ck, "a "+ck+" file was decoded without an error"
 			}
-		case "err":
+		case "err", "skipped":
 		case "panic":
 			key, what = "decode:panic:"+ck, "host panic escaped DecodeProgram / Write on a "+ck+" file: "+o
 		case "hang":
@@ -452,7 +488,6 @@ func modeCorrupt(seed uint64, n int) {
 		}
 	}
 	hx.Emit(sum)
-	_ = sort.Strings
 }
 
 func firstWord(o string) string {
